@@ -65,12 +65,17 @@ def generated_obligations(ctx, proof, broken):
     files = []
     total = 0
     skipped = []
+    known_keys = {k["key"] for k in vlib.load_known("C11")[0]}
     for p in plugs:
         rng = random.Random("%s/%s/t2" % (ctx.seed, p.NAME))
         insts = list(p.tier2(ctx.tier, rng)) if hasattr(p, "tier2") else []
         per_file = getattr(p, "T2_PER_FILE", 12)
         chunk, k, idx = [], 0, 0
         for pb in insts:
+            if hasattr(p, "classify") and p.classify(pb, "tier2") in known_keys:
+                # the instance lies in a class recorded in KNOWN_FINDINGS.txt: no obligation is stated for it
+                ctx.count("tier2-excluded-known:" + p.NAME)
+                continue
             st, txt = L.tier2_instance(p, pb, idx)
             if st != "ok":
                 skipped.append("%s:%s" % (p.NAME, txt))
